@@ -690,7 +690,9 @@ def compare_obs(ctx, ci, kind, kn, d, env, model, pool_index, replay):
         ctx.broke("correspondence Progress.v mapping insertion order", {"case": ci, "kind": kn})
     scal_m = (model["running_count"], model["nrs"], model["stale"], model["nexc"], model["newidx"], model["prev"])
     st = obs._state
-    scal_i = (st.running_count, len(st._running_scope_states), int(obs._stale), len(obs._exception_tuples),
+    stale = getattr(obs, "_stale", None)
+    stale = stale.is_set() if hasattr(stale, "is_set") else stale
+    scal_i = (st.running_count, len(st._running_scope_states), None if stale is None else int(stale), len(obs._exception_tuples),
               obs._new_exception_index, F(st._prev_time))
     if scal_m != scal_i:
         ctx.broke("correspondence Progress.v observer scalars (running_count, |running set|, stale, exceptions, new index, prev_time)",
@@ -912,7 +914,76 @@ def reused_progress(ctx, clock):
     clock.auto = None
 
 
+def lock_window(ctx, clock, classes):
+    """The update thread may win the observer's lock at ANY moment - in particular just before a notification takes it.  Whatever
+    it rendered then, the rendering made when the run ends must show the state after that notification.  (The update thread's
+    iteration is performed by the harness at exactly that moment: `with lock: _do_render()`, then `_output`.)"""
+    KN = ["console", "html", "ipython"]
+    for kind in range(3):
+        for finish in ("completed", "failed"):
+            for window_at in ("every", "last"):
+                clock.auto, clock.log = F(0), []
+                sink, stdout = [], io.StringIO()
+                obs = make_obs(kind, F(10 ** 6), classes, sink, delay=1000)
+                real = obs._lock
+                armed = [window_at == "every"]
+
+                class Window:
+                    def __enter__(self):
+                        if armed[0]:
+                            with real:
+                                out = obs._do_render()
+                            if out is not None:
+                                obs._output(out)
+                        real.acquire()
+
+                    def __exit__(self, *a):
+                        real.release()
+                        return False
+                names = {(SEC["run"], "f"): (0,)}
+                replay = {"kind": KN[kind], "finish": finish, "update_thread_renders_just_before": window_at + " notification",
+                          "max_update_interval": 10 ** 6}
+                ctx.case(("lock-window", kind, finish, window_at))
+                try:
+                    with contextlib.redirect_stdout(stdout):
+                        obs._lock = Window()
+                        obs.increment_total(section="run", scope=("f",), amount=1)
+                        obs.increment_running(section="run", scope=("f",))
+                        armed[0] = True
+                        if finish == "completed":
+                            obs.increment_completed(section="run", scope=("f",))
+                        else:
+                            obs.increment_failed(section="run", scope=("f",), exception=mk_exc(1))
+                        obs._lock = real
+                        with real:                       # the last iteration of the update thread, after __exit__ set the event
+                            out = obs._do_render()
+                        if out is not None:
+                            obs._output(out)
+                except Exception as e:      # noqa
+                    ctx.fail("lock-window:raised", "%s observer raised %s: %s when the update thread rendered just before a notification" % (KN[kind], type(e).__name__, e), replay)
+                    continue
+                if kind == 0:
+                    chunks = re.split(r"(?m)^(?=uberjob, elapsed )", stdout.getvalue())
+                    renders = [parse_console(c, names) for c in chunks if c.startswith("uberjob, elapsed")]
+                elif kind == 1:
+                    renders = [parse_html(b, names) for b in sink]
+                else:
+                    renders = [parse_ipy(obs, names)] if obs._widget_cache else []
+                want = (1, 0, 0, 1) if finish == "completed" else (0, 1, 0, 1)
+                m = {(SEC["run"], (0,)): want + (F(0),)}
+                st_ = obs._state.section_scope_mapping.get("run", {}).get(("f",))
+                if st_ is None or (st_.completed, st_.failed, st_.running, st_.total) != want:
+                    ctx.fail("lock-window:state", "%s observer: the counts after total/running/%s are wrong" % (KN[kind], finish), replay)
+                    continue
+                if not renders:
+                    ctx.fail("last-output:%s" % KN[kind], "%s observer: nothing was rendered" % KN[kind], replay)
+                    continue
+                check_last(ctx, KN[kind], kind, renders, m, replay)
+    clock.auto = None
+
+
 def threaded(ctx, sp, pool, clock, classes, pool_index):
+    lock_window(ctx, clock, classes)
     reused_progress(ctx, clock)
     unusual_exceptions(ctx, clock, classes)
     lookalikes(ctx, clock, classes)
